@@ -66,7 +66,7 @@ CHECKS = {
          "Bounds are re-stated independently and checked on every Config, FeeTier, AdaptiveFeeTier, Whirlpool and Oracle account in the bank after each successful instruction, under a storm of initialize/set instructions with hostile arguments; every subset (size <= 2 quick / 3 thorough) of 24 Token-2022 extension type numbers x freeze authority x five badge states is written with the harness's TLV writer and run through all three creation paths with the mint in either position; everything the statement's allow-list forbids must fail.",
          SVM + "; spl-token-2022's TLV reader defines which extensions a (possibly truncated) mint carries; only rejection is judged", "DESIGN.md#c19"),
  "C20": ("differential execution: the Rust core SDK linked next to the program - exhaustive tick table, hostile function inputs, and SDK quotes against swaps actually executed in hostile histories",
-         "All 887273 ticks and every boundary price are compared; amount / next-price / liquidity-amount functions are compared on hostile inputs (values where the program succeeds, an SDK error where the program rejects as overflowing); every swap_v2 of the history workloads (static, adaptive incl. hour-long high-frequency bursts, transfer-fee pools) is re-judged without price limit on a clone and compared with swap_quote_by_input/output_token built from the decoded pre-state: amounts, total fee, failure behaviour and slippage side.",
+         "All 887273 ticks and every boundary price are compared; amount / next-price / liquidity-amount functions are compared on hostile inputs (values where the program succeeds, an SDK error where the program rejects as overflowing); every swap_v2 of the history workloads (static, adaptive incl. hour-long high-frequency bursts, transfer-fee pools) is re-judged without price limit on a clone and compared with swap_quote_by_input/output_token built from the decoded pre-state: amounts, total fee, failure behaviour and slippage side; every successful increase/decrease of the same histories is compared with increase/decrease_liquidity_quote (estimates equal what the owner paid / received, transfer fees included).",
          SVM + "; `ethnum` is not available offline - the SDK is compiled against a stand-in U256 with the same std-integer semantics; the TypeScript/WASM packaging is out of reach", "DESIGN.md#c20"),
 }
 NOT_YET = "check under construction in this session (designed in DESIGN.md section 5); not claimed until it runs silent on the unchanged tree"
